@@ -264,6 +264,33 @@ theorem check_total {U : UCfg} (hU : U.WF) :
   have hs := check_spec hU _ r hr
   exact ⟨r, hr, hs.1, hs.2.2⟩
 
+
+/-- **Unreachable code cannot change the types seen by reachable code.**  In a pruned CFG (what
+    `CFGBuilder.build` hands to the checker; the harness checks `Pruned` on every captured CFG) every typed
+    path that arrives at a really reachable block runs over real edges only: the never-taken edges and the
+    code behind them contribute no type to live code. -/
+theorem reachable_types_from_real_paths {U : UCfg} (hP : Pruned U) {x : Var} {b : Blk} {o : Option Ty}
+    (h : TyAt U x b o) (hb : RealReach U b) : TyAtReal U x b o := by
+  induction h with
+  | entry => exact .entry
+  | @edge p s o _ he ih =>
+    obtain ⟨hp, hs⟩ := hP p s he hb
+    exact .edge (ih hp) hs
+
+/-- conversely a real typed path is a typed path (no hypothesis) -/
+theorem tyAtReal_tyAt {U : UCfg} {x : Var} {b : Blk} {o : Option Ty} (h : TyAtReal U x b o) :
+    TyAt U x b o := by
+  induction h with
+  | entry => exact .entry
+  | edge _ hs ih => exact .edge ih (List.mem_append_left _ hs)
+
+/-- **A rejection at a reachable join is caused by real paths.**  If the variable named in a
+    "different types" error conflicts at a really reachable block, two real paths give it two types. -/
+theorem reachable_conflict_is_real {U : UCfg} (hP : Pruned U) {x : Var} {b : Blk} {t₁ t₂ : Ty}
+    (h₁ : TyAt U x b (some t₁)) (h₂ : TyAt U x b (some t₂)) (hb : RealReach U b) :
+    TyAtReal U x b (some t₁) ∧ TyAtReal U x b (some t₂) :=
+  ⟨reachable_types_from_real_paths hP h₁ hb, reachable_types_from_real_paths hP h₂ hb⟩
+
 /-! ## Non-vacuity: `if c: x = 1` / `else: pass`, then read `x`; and a re-typed variable. -/
 
 /-- blocks 0 (entry; reads c=1) → 2 (x=5 := int) | 3 ; both → 4 (reads x) → 1 (exit) -/
@@ -291,5 +318,43 @@ example : Undef (exU none) 5 :=
     .step (by decide) (show 3 ∈ (exU none).cfg.succ 0 ++ (exU none).cfg.dsucc 0 by decide)
       (.step (by decide) (show 4 ∈ (exU none).cfg.succ 3 ++ (exU none).cfg.dsucc 3 by decide)
         (.use (by decide)))⟩
+
+/-- dead code nested behind the entry's `return`: 0 (entry, returns) → 1 (exit), 0 ⇢ 2 (dead branch) →
+    3 (x := int) | 4 (x := float), both → 5 (reads x); the jump 5 → 1 back into live code is pruned -/
+def exD : UCfg where
+  blocks := [0, 1, 2, 3, 4, 5]
+  succ := fun b => match b with | 0 => [1] | 2 => [3, 4] | 3 => [5] | 4 => [5] | _ => []
+  dsucc := fun b => match b with | 0 => [2] | _ => []
+  pred := fun b => match b with | 1 => [0] | 3 => [2] | 4 => [2] | 5 => [3, 4] | _ => []
+  dpred := fun b => match b with | 2 => [0] | _ => []
+  entry := 0
+  events := fun b => match b with
+    | 2 => [.use 1] | 3 => [.asg 5 10] | 4 => [.asg 5 12] | 5 => [.use 5] | _ => []
+  args := [(1, 11)]
+  globals := []
+
+example : (match check exD 50 with | some (.error es) => es == [.branchType 5] | _ => false) = true := by
+  decide
+
+theorem exD_reach_aux {s : Blk} (h : RealReach exD s) : s = 0 ∨ s = 1 := by
+  induction h with
+  | entry => exact Or.inl rfl
+  | @step p s _ hs ih =>
+    rcases ih with rfl | rfl
+    · right; simpa [exD] using hs
+    · simp [exD] at hs
+
+example : Pruned exD := by
+  intro p s he hs
+  rcases exD_reach_aux hs with rfl | rfl
+  · -- nothing jumps to the entry
+    have : ∀ p, (0 : Blk) ∉ exD.succ p ++ exD.dsucc p := by
+      intro p; unfold exD; simp only; split <;> split <;> simp
+    exact absurd he (this p)
+  · have hp : p = 0 := by
+      unfold exD at he; simp only at he
+      split at he <;> split at he <;> simp_all
+    subst hp
+    exact ⟨.entry, by simp [exD]⟩
 
 end GuppyVerif.UseDef
